@@ -571,6 +571,14 @@ def describe(obj) -> dict:
 def _as(value, how):
     if value is None:
         return None
+    if how == "rel":
+        # relative to the node's working directory (the run directory)
+        root = shims.STATE.root
+        if root and str(value).startswith(root.rstrip("/") + "/"):
+            if os.getcwd() != root:
+                os.chdir(root)
+            return os.path.relpath(str(value), root)
+        return str(value)
     return pathlib.Path(value) if how == "path" else str(value)
 
 
@@ -769,6 +777,7 @@ def serve(conn) -> None:
         shims.CLOCK.calls = 0
         shims.UUIDS.calls = 0
         shims.arm(env.get("fault"), env.get("root", "/nonexistent"))
+        shims.STATE.root = env.get("root")
         shims.arm_audio(env.get("audio_fault"))
         try:
             handler = HANDLERS[request["op"]]
@@ -872,6 +881,14 @@ def h_arrange(spec, target, doc_path, handle, base_spec=None):
             "msg": f"substrate of the arrangement did not build: {exc}"[:300],
         }
     i = target.get("index", 0)
+    base_world = None
+    if base_spec is not None:
+        base_world = World(base_spec)  # validated first, same identifiers
+        for kind in ("evaluation", "annotation_project"):
+            try:
+                base_world.root(kind)
+            except Exception:  # noqa: BLE001
+                pass
     if cls_name == "Clip":
         c = spec["clips"][i]
         cls = data.Clip
@@ -911,8 +928,7 @@ def h_arrange(spec, target, doc_path, handle, base_spec=None):
         cls = data.ClipEvaluation
         e = spec["clip_evaluations"][i]
         kwargs = world.clip_evaluation_kwargs(e)
-        if base_spec is not None:
-            base_world = World(base_spec)
+        if base_world is not None:
             for key, pool, items in (
                 ("annotations", "clip_annotations", "se_annotations"),
                 ("predictions", "clip_predictions", "se_predictions"),
